@@ -25,6 +25,7 @@ def jsonOK (cfg : Cfg) : Op → Bool
   | .lmut _ (.setslice _ _ k vs) => cfg.wraps .setslice k && vs.all tupFree
   | .lmut _ (.extend k vs) => cfg.wraps .extend k && vs.all tupFree
   | .lmut _ (.iadd k vs) => cfg.wraps .iadd k && vs.all tupFree
+  | .lmut _ (.sortRaise _) => cfg.notifyOnError        -- a change that ends in an exception needs the try/finally
   | .dmut _ (.setitem _ v) | .dmut _ (.setdefault _ v) => tupFree v
   | .dmut _ (.update k ps kw) => cfg.wraps .update k && cfg.wraps .update .kw && (ps ++ kw).all (fun p => tupFree p.2)
   | .dmut _ (.ior k ps) => cfg.wraps .ior k && ps.all (fun p => tupFree p.2)
@@ -79,7 +80,7 @@ theorem pairs_make_allW_of_tupFree (cfg : Cfg) (ps : Items) (h : ps.all (fun p =
 theorem C28_guard_json (cfg : Cfg) (op : Op) (h : jsonOK cfg op = true) : op.argsW cfg = true := by
   cases op with
   | lmut p m =>
-      cases m <;> simp_all [jsonOK, Op.argsW, LMut.prep, LMut.args, makeVals, make_allW_of_tupFree]
+      cases m <;> simp_all [jsonOK, Op.argsW, LMut.prep, LMut.args, makeVals, make_allW_of_tupFree, notifies, LMut.raises]
       all_goals (intro v hv; exact make_allW_of_tupFree cfg v (h.2 v hv))
   | dmut p m =>
       cases m with
@@ -99,14 +100,14 @@ theorem C28_guard_json (cfg : Cfg) (op : Op) (h : jsonOK cfg op = true) : op.arg
 /-- when `make` wraps tuples and every iterable argument is wrapped, every operation satisfies the guard -/
 theorem C28_guard_wrapsAll (cfg : Cfg) (hw : cfg.wrapsAll = true) (op : Op) : op.argsW cfg = true := by
   simp only [Cfg.wrapsAll, Bool.and_eq_true, List.isEmpty_iff] at hw
-  obtain ⟨ht, he⟩ := hw
+  obtain ⟨⟨ht, he⟩, hn⟩ := hw
   have hwr : ∀ m k, cfg.wraps m k = true := by intro m k; simp [Cfg.wraps, he]
   have hall : ∀ vs : List T, (vs.map (make cfg)).all allW = true := by
     intro vs; simp only [List.all_eq_true, List.mem_map]; rintro _ ⟨v, _, rfl⟩; exact make_allW cfg ht v
   have hps : ∀ ps : Items, ((ps.map (fun p => (p.1, make cfg p.2))).map (·.2)).all allW = true := by
     intro ps; simp only [List.all_eq_true, List.mem_map]; rintro _ ⟨_, ⟨p, _, rfl⟩, rfl⟩; exact make_allW cfg ht p.2
   cases op with
-  | lmut p m => cases m <;> simp [Op.argsW, LMut.prep, LMut.args, makeVals, hwr, make_allW cfg ht, hall]
+  | lmut p m => cases m <;> simp [Op.argsW, LMut.prep, LMut.args, makeVals, hwr, make_allW cfg ht, hall, notifies, hn]
   | dmut p m =>
       cases m with
       | update k ps kw =>
@@ -153,7 +154,8 @@ theorem C28_inv_step (cfg : Cfg) (hc : cfg.covers = true) (s : St) (op : Op) (hs
       simp only [step]
       split
       · rename_i d n hm
-        have := modAt_sound (f := applyL cfg m) (fun t t' n ht h => applyL_sound hc ht (by simpa [Op.argsW] using ha) h) p s.doc d n h1 hm
+        have ha' : (m.prep cfg).args.all allW = true ∧ notifies cfg m = true := by simpa [Op.argsW] using ha
+        have := modAt_sound (f := applyL cfg m) (fun t t' n ht h => applyL_sound hc ht ha'.1 ha'.2 h) p s.doc d n h1 hm
         rw [this.2]; exact attrChanged_inv s d this.1 hs'
       · rename_i e n hm
         cases n
@@ -210,7 +212,11 @@ theorem C28_dirty_list (cfg : Cfg) (hc : cfg.covers = true) (s : St) (hs : allW 
   simp only [step] at hok ⊢
   split
   · rename_i d n hm
-    have := modAt_notifies (f := applyL cfg m) (fun t t' n ht h => applyL_notifies hc ht h) p s.doc d n hs hm
+    have hr : notifies cfg m = true := by
+      cases hmr : m.raises
+      · simp [notifies, hmr]
+      · simp [hm, hmr] at hok
+    have := modAt_notifies (f := applyL cfg m) (fun t t' n ht h => applyL_notifies hc ht hr h) p s.doc d n hs hm
     simp [this, notified, attrChanged, bitAll, hcr]
   · rename_i e hm; simp [hm] at hok
 
@@ -242,7 +248,7 @@ theorem C28_other_then_change (cfg : Cfg) (s : St) (h : s.status ≠ .created) :
 /-- a method that is NOT overridden changes the value without telling anybody (why the coverage table matters) -/
 theorem C28_uncovered_silent (cfg : Cfg) (w : Bool) (xs : Items) (m : LMut) (h : cfg.listOv.contains m.meth = false)
     (t' : T) (n : Bool) (ha : applyL cfg m (.node .list w xs) = .ok (t', n)) : n = false := by
-  simp only [applyL, h, Bool.and_false] at ha
+  simp only [applyL, h, Bool.and_false, Bool.false_and] at ha
   split at ha
   · injection ha with ha; injection ha with _ h2; exact h2.symm
   · cases ha
@@ -250,13 +256,13 @@ theorem C28_uncovered_silent (cfg : Cfg) (w : Bool) (xs : Items) (m : LMut) (h :
 /-- reads never mark the object modified (nor change anything else) -/
 theorem C28_read_clean (cfg : Cfg) (s : St) (p : List Step) : (step cfg s (.read p)).1 = s := rfl
 
-/-- a mutator that raises leaves the value and the database as they were -/
-theorem C28_error_unchanged (cfg : Cfg) (s : St) (p : List Step) (m : LMut) (e : Err)
+/-- a mutator that raises before it changes anything leaves the value and the database as they were -/
+theorem C28_error_unchanged (cfg : Cfg) (s : St) (p : List Step) (m : LMut) (e : Err) (hm : m.raises = false)
     (h : (step cfg s (.lmut p m)).2 = some e) :
     (step cfg s (.lmut p m)).1.doc = s.doc ∧ (step cfg s (.lmut p m)).1.db = s.db := by
   simp only [step] at h ⊢
   split
-  · rename_i hm; simp [hm] at h
+  · rename_i hm'; simp [hm', hm] at h
   · exact notified_doc s _
 
 /-- the observation point of the property: when the session ends and a new session reads the value (`v` = what the database
@@ -313,6 +319,19 @@ theorem C28_persist_created_json_current (v : T) (hv : tupFree v = true) (vol : 
     TrackedArray (finite check over the generated table) -/
 theorem C28_cover_current : table.covers = true := by decide
 
+/-- `tracked_method` of the current source notifies also when the built-in method raised (try/finally): the flag probed on the
+    real classes.  Breaks the build when the try/finally goes away. -/
+theorem C28_notify_on_error_current : table.notifyOnError = true := by decide
+
+/-- … hence, for the current source, a sort that raises after it has reordered the list at any depth still marks the object -/
+theorem C28_partial_change_dirty_current (s : St) (hs : allW s.doc = true) (hcr : s.status ≠ .created) (p : List Step) (perm : List Nat)
+    (d : T) (n : Bool) (hm : modAt (applyL table (.sortRaise perm)) p s.doc = .ok (d, n)) :
+    (step table s (.lmut p (.sortRaise perm))).1.dirty = true ∧ (step table s (.lmut p (.sortRaise perm))).1.doc = d := by
+  have hr : notifies table (.sortRaise perm) = true := by simp [notifies, C28_notify_on_error_current]
+  have := modAt_notifies (f := applyL table (.sortRaise perm)) (fun t t' n ht h => applyL_notifies C28_cover_current ht hr h) p s.doc d n hs hm
+  simp only [step, hm, this, notified]
+  exact ⟨by simp [attrChanged, bitAll, hcr], (attrChanged_doc _).1⟩
+
 /-- the cross-check table: every overridden mutator was also observed to notify -/
 theorem C28_notify_current : LM.all.all (fun m => listNotify.contains m) && DM.all.all (fun m => dictNotify.contains m)
     && LM.all.all (fun m => arrNotify.contains m) = true := by decide
@@ -355,7 +374,7 @@ theorem C28_lost_extend (cfg : Cfg) (hc : cfg.covers = true) (k : IterKind) (hu 
   have h := hF v0 false (by decide) (witnessL .extend k)
   have h1 : LM.extend ∈ cfg.listOv := by simpa using Cfg.covers_list hc .extend
   have h2 : LM.append ∈ cfg.listOv := by simpa using Cfg.covers_list hc .append
-  simp [witnessL, run, step, notified, attrChanged, bitAll, St.load, v0, elemE, one, make, makeL, modAt, locate, normIdx, applyL, lEffect, LMut.prep, LMut.meth, makeVals,
+  simp [witnessL, run, step, notified, attrChanged, bitAll, notifies, LMut.raises, St.load, v0, elemE, one, make, makeL, modAt, locate, normIdx, applyL, lEffect, LMut.prep, LMut.meth, makeVals,
     doFlush, ser, serL, Kind.ser, h1, h2, hu, li, List.findIdx?_cons] at h
 
 theorem C28_lost_iadd (cfg : Cfg) (hc : cfg.covers = true) (k : IterKind) (hu : cfg.wraps .iadd k = false) : ¬ Full cfg := by
@@ -363,7 +382,7 @@ theorem C28_lost_iadd (cfg : Cfg) (hc : cfg.covers = true) (k : IterKind) (hu : 
   have h := hF v0 false (by decide) (witnessL .iadd k)
   have h1 : LM.iadd ∈ cfg.listOv := by simpa using Cfg.covers_list hc .iadd
   have h2 : LM.append ∈ cfg.listOv := by simpa using Cfg.covers_list hc .append
-  simp [witnessL, run, step, notified, attrChanged, bitAll, St.load, v0, elemE, one, make, makeL, modAt, locate, normIdx, applyL, lEffect, LMut.prep, LMut.meth, makeVals,
+  simp [witnessL, run, step, notified, attrChanged, bitAll, notifies, LMut.raises, St.load, v0, elemE, one, make, makeL, modAt, locate, normIdx, applyL, lEffect, LMut.prep, LMut.meth, makeVals,
     doFlush, ser, serL, Kind.ser, h1, h2, hu, li, List.findIdx?_cons] at h
 
 theorem C28_lost_setslice (cfg : Cfg) (hc : cfg.covers = true) (k : IterKind) (hu : cfg.wraps .setslice k = false) : ¬ Full cfg := by
@@ -371,7 +390,7 @@ theorem C28_lost_setslice (cfg : Cfg) (hc : cfg.covers = true) (k : IterKind) (h
   have h := hF v0 false (by decide) (witnessL (.setslice none none) k)
   have h1 : LM.setitem ∈ cfg.listOv := by simpa using Cfg.covers_list hc .setitem
   have h2 : LM.append ∈ cfg.listOv := by simpa using Cfg.covers_list hc .append
-  simp [witnessL, run, step, notified, attrChanged, bitAll, St.load, v0, elemE, one, make, makeL, modAt, locate, normIdx, applyL, lEffect, LMut.prep, LMut.meth, makeVals,
+  simp [witnessL, run, step, notified, attrChanged, bitAll, notifies, LMut.raises, St.load, v0, elemE, one, make, makeL, modAt, locate, normIdx, applyL, lEffect, LMut.prep, LMut.meth, makeVals,
     sliceBounds, doFlush, ser, serL, Kind.ser, h1, h2, hu, li, List.findIdx?_cons] at h
 
 theorem C28_lost_update (cfg : Cfg) (hc : cfg.covers = true) (k : IterKind) (hu : cfg.wraps .update k = false) : ¬ Full cfg := by
@@ -379,7 +398,7 @@ theorem C28_lost_update (cfg : Cfg) (hc : cfg.covers = true) (k : IterKind) (hu 
   have h := hF v0 false (by decide) (witnessD (fun k ps => .update k ps []) k)
   have h1 : DM.update ∈ cfg.dictOv := by simpa using Cfg.covers_dict hc .update
   have h2 : LM.append ∈ cfg.listOv := by simpa using Cfg.covers_list hc .append
-  simp [witnessD, run, step, notified, attrChanged, bitAll, St.load, v0, elemE, one, make, makeL, modAt, locate, normIdx, applyL, applyD, lEffect, dEffect, dSetAll, dSet,
+  simp [witnessD, run, step, notified, attrChanged, bitAll, notifies, LMut.raises, St.load, v0, elemE, one, make, makeL, modAt, locate, normIdx, applyL, applyD, lEffect, dEffect, dSetAll, dSet,
     LMut.meth, DMut.prep, DMut.meth, makePairs, doFlush, ser, serL, Kind.ser, h1, h2, hu, li, List.findIdx?_cons] at h
 
 theorem C28_lost_ior (cfg : Cfg) (hc : cfg.covers = true) (k : IterKind) (hu : cfg.wraps .ior k = false) : ¬ Full cfg := by
@@ -387,7 +406,7 @@ theorem C28_lost_ior (cfg : Cfg) (hc : cfg.covers = true) (k : IterKind) (hu : c
   have h := hF v0 false (by decide) (witnessD .ior k)
   have h1 : DM.ior ∈ cfg.dictOv := by simpa using Cfg.covers_dict hc .ior
   have h2 : LM.append ∈ cfg.listOv := by simpa using Cfg.covers_list hc .append
-  simp [witnessD, run, step, notified, attrChanged, bitAll, St.load, v0, elemE, one, make, makeL, modAt, locate, normIdx, applyL, applyD, lEffect, dEffect, dSetAll, dSet,
+  simp [witnessD, run, step, notified, attrChanged, bitAll, notifies, LMut.raises, St.load, v0, elemE, one, make, makeL, modAt, locate, normIdx, applyL, applyD, lEffect, dEffect, dSetAll, dSet,
     LMut.meth, DMut.prep, DMut.meth, makePairs, doFlush, ser, serL, Kind.ser, h1, h2, hu, li, List.findIdx?_cons] at h
 
 theorem C28_lost_tuple (cfg : Cfg) (hc : cfg.covers = true) (hu : cfg.makeTuple = false) : ¬ Full cfg := by
@@ -395,12 +414,23 @@ theorem C28_lost_tuple (cfg : Cfg) (hc : cfg.covers = true) (hu : cfg.makeTuple 
   have h := hF v0 false (by decide) witnessT
   have h2 : LM.append ∈ cfg.listOv := by simpa using Cfg.covers_list hc .append
   have hm : cfg.tupleMode = .leave := by simpa [Cfg.makeTuple] using hu
-  simp [witnessT, run, step, notified, attrChanged, bitAll, St.load, v0, one, make, makeL, modAt, locate, normIdx, applyL, lEffect, LMut.prep, LMut.meth,
+  simp [witnessT, run, step, notified, attrChanged, bitAll, notifies, LMut.raises, St.load, v0, one, make, makeL, modAt, locate, normIdx, applyL, lEffect, LMut.prep, LMut.meth,
     doFlush, ser, serL, Kind.ser, h2, hm, li] at h
+
+/-- `x = obj.data; x.sort()` raising after it has exchanged the two items -/
+def witnessP : List Op := [.lmut [] (.sortRaise [1, 0])]
+
+/-- without the try/finally in `tracked_method` a change that ends in an exception is not written -/
+theorem C28_lost_partial (cfg : Cfg) (hc : cfg.covers = true) (hu : cfg.notifyOnError = false) : ¬ Full cfg := by
+  intro hF
+  have h := hF v0 false (by decide) witnessP
+  have h1 : LM.sort ∈ cfg.listOv := by simpa using Cfg.covers_list hc .sort
+  simp [witnessP, run, step, notified, attrChanged, bitAll, notifies, LMut.raises, St.load, v0, make, makeL, modAt, applyL, lEffect,
+    LMut.prep, LMut.meth, doFlush, ser, serL, Kind.ser, h1, hu] at h
 
 /-- `C28_full_iff`: for a table that covers the mutators, the full statement (every change made in place, through any
     operation sequence with ARBITRARY arguments, is in the database after the commit) holds if and only if `make` wraps the
-    containers inside tuples and every iterable argument's elements are wrapped.  `table.wrapsAll` is evaluated on the table
+    containers inside tuples, every iterable argument's elements are wrapped, and a change that ends in an exception is notified.  `table.wrapsAll` is evaluated on the table
     generated from the current source; the engine replays the witnesses on the real code. -/
 theorem C28_full_iff (cfg : Cfg) (hc : cfg.covers = true) : Full cfg ↔ cfg.wrapsAll = true := by
   constructor
@@ -409,7 +439,10 @@ theorem C28_full_iff (cfg : Cfg) (hc : cfg.covers = true) : Full cfg ↔ cfg.wra
     | false => exact absurd hF (C28_lost_tuple cfg hc ht)
     | true =>
       cases hl : cfg.iterUnwrapped with
-      | nil => simp [Cfg.wrapsAll, ht, hl]
+      | nil =>
+        cases hn : cfg.notifyOnError with
+        | false => exact absurd hF (C28_lost_partial cfg hc hn)
+        | true => simp [Cfg.wrapsAll, ht, hl, hn]
       | cons mk rest =>
         obtain ⟨m, k⟩ := mk
         have hu : cfg.wraps m k = false := by simp [Cfg.wraps, hl]
